@@ -47,6 +47,7 @@ def dispatch (op : String) (payload : Json) : R Json :=
   | "no_crash_shape" => C07.handle payload
   | "no_crash_shape_file" => C07File.handle payload
   | "no_crash_shape_pipeline" => C07File.handlePipeline payload
+  | "c07_run" => C07Stats.handle payload
   | "root_context" => File.handleRoot payload
   | "analyse_file" => File.handleFile payload
   | "pipeline" => Pipeline.handle payload
